@@ -550,6 +550,10 @@ func JoinPath(elem ...string) string {
 }
 
 func BackQuoted(s string) string {
+	if strings.ContainsAny(s, "`\r") {
+		// a raw string literal cannot hold a back quote and drops carriage returns
+		return strconv.Quote(s)
+	}
 	return "`" + s + "`"
 }
 
